@@ -56,12 +56,16 @@ func VH_C17_tar() {
 		l.stat.Linkname = "d/f"
 		l.stat.Size = 3
 	}
-	switch v.Choose("class-p", 3) {
+	switch v.Choose("class-p", 4) {
 	case 1:
 		add("p", clsFifo)
 	case 2:
 		p := add("p", clsFile)
 		p.stat.Mode = uint32(os.ModeDevice|os.ModeCharDevice) | (p.stat.Mode & permMask)
+		p.stat.Devmajor, p.stat.Devminor = int64(v.U32("major")&0xfff), int64(v.U32("minor")&0xff)
+	case 3:
+		p := add("p", clsFile)
+		p.stat.Mode = uint32(os.ModeDevice) | (p.stat.Mode & permMask) // block device
 		p.stat.Devmajor, p.stat.Devminor = int64(v.U32("major")&0xfff), int64(v.U32("minor")&0xff)
 	}
 	var buf bytes.Buffer
@@ -97,6 +101,8 @@ func VH_C17_tar() {
 			wantType = tar.TypeFifo
 		case fm&os.ModeCharDevice != 0:
 			wantType = tar.TypeChar
+		case fm&os.ModeDevice != 0:
+			wantType = tar.TypeBlock
 		}
 		v.Assert(mem.Typeflag == wantType, "member type matches the entry type")
 		v.Assert(mem.Linkname == st.Linkname, "link members name their target")
